@@ -138,6 +138,8 @@ def run_impl(case, mods, noise=None):
         x, flag, err = None, False, str(ex)       # documented exit of the Cauchy-point line search
     except Timeout:
         x, flag, err = None, False, 'timeout'
+    except Exception as ex:                        # anything else the solver raises is a failure of the property, not of the harness
+        x, flag, err = None, False, 'exception: %r' % ex
     finally:
         signal.alarm(0)
         signal.signal(signal.SIGALRM, old)
@@ -164,6 +166,8 @@ def concl(case, out, mods):
     bad = []
     if out['err'] == 'timeout':
         return [('hang', 'bound_constrained_trust_region_minimize did not return within 60 s')]
+    if out['err'] and out['err'].startswith('exception'):
+        return [('exception', 'bound_constrained_trust_region_minimize raised ' + out['err'][11:])]
     pts = [p for k, p in out['log'] if k == 'cb']
     allpts = pts + ([out['x']] if out['x'] is not None else [])
     if not all(math.isfinite(t) for p in allpts for t in p):
@@ -261,6 +265,10 @@ def correspondence(ctx, model_ok):
             bj = jnp.array([[lo, hi] for lo, hi in c['bounds']])
             p = TR.project(jnp.array(c['x']), bj)
             q = TR.project_onto_tr(jnp.array(c['x']), jnp.array(c['xk']), bj, c['tr'])
+        except Exception as ex:
+            ctx.fail('conclusion', 'project_onto_tr raised %r on a feasible centre' % ex, case=dict(c, kind='projection'), concrete=True)
+            pouts.append(None)
+            continue
         finally:
             TR.optimize.brentq = orig_b
         p, q = [float(t) for t in p], [float(t) for t in q]
@@ -291,18 +299,19 @@ def correspondence(ctx, model_ok):
     ctx.cov['exit_histogram'] = hist
     ctx.cov['worst_bound_excess_ulp'] = worst
     ctx.sample(dict(kind='solver', n=cases[-1]['n'], bounds=cases[-1]['bounds'], flag=outs[-1]['flag'], events=[k for k, _ in outs[-1]['log']]))
-    ctx.sample(dict(kind='project_onto_tr', x=pcases[0]['x'], xk=pcases[0]['xk'], tr=pcases[0]['tr'], result=pouts[0]['q'], root_find=pouts[0]['root']))
+    ctx.sample(dict(kind='project_onto_tr', x=pcases[0]['x'], xk=pcases[0]['xk'], tr=pcases[0]['tr'], result=(pouts[0] or {}).get('q'), root_find=(pouts[0] or {}).get('root')))
     if not model_ok:
         return
     # ---- L1: projections
     ex = []
-    for c, o in zip(pcases, pouts):
+    pc2 = [(c, o) for c, o in zip(pcases, pouts) if o is not None]
+    for c, o in pc2:
         ex.append('fencs (@project float NumF %s %s) ++ fencs (@project_onto_tr float NumF %s %s %s %s %s) ++ benc (@needs_root_find float NumF %s %s %s %s)'
                   % (cvec(c['x']), cbounds(c['bounds']), cvec(c['x']), cvec(c['xk']), cbounds(c['bounds']), C.cf(c['tr']), C.cf(o['t']),
                      cvec(c['x']), cvec(c['xk']), cbounds(c['bounds']), C.cf(c['tr'])))
     res = C.coq_eval(IMPORTS, ex, 'C05p', shard=300)
     mism = unstable = 0
-    for c, o, zs in zip(pcases, pouts, res):
+    for (c, o), zs in zip(pc2, res):
         n = c['n']
         fl = C.dec_floats(zs[:4 * n])
         mp, mq, mroot = fl[:n], fl[n:], bool(zs[4 * n])
